@@ -7,8 +7,8 @@ from harness.props import c05
 
 ID = 'C17'
 MODULE = 'Gpv.Props.C17'
-MODULES = ['Gpv.Props.C17', 'Gpv.Props.C17Float']
-THEOREMS = core.theorems('C17', 'C17Float')
+MODULES = ['Gpv.Props.C17', 'Gpv.Props.C17Float', 'Gpv.Props.C17FloatVar']
+THEOREMS = core.theorems('C17', 'C17Float', 'C17FloatVar')
 RULE = ('RunningMean / RunningVariance / RunningCovariance with lifetimes 1-50 (integers and non-integers >= 1), sequences below, at '
         'and above the lifetime, scalars and arrays, lifetime changed mid-stream; read after every push; model in exact rationals vs '
         'float implementation (rtol 1e-9); oracle: explicit weights (1/n in warm-up, then 1/L, decaying by 1-1/L, first L sharing one '
@@ -17,8 +17,10 @@ RULE = ('RunningMean / RunningVariance / RunningCovariance with lifetimes 1-50 (
 PARTIAL = ['floating-point behaviour of the RUNNING MEAN: proved in the standard rounding model with the step weights taken as given numbers in [0,1] '
            '(C17Float.rmean_float_bounded: |acc| <= M*amin/(amin-4u) for ever, i.e. independent of n; rmean_float_error(_const/_model): the distance to the '
            'exact recursion stays below 4*u*l*M/(1-4*u*l), the initial error is forgotten geometrically; rmean_float_warmup: 3*(n+1)*u*M during warm-up; '
-           'rmean_float_stationary: a bound independent of the weight is false). The rounding of the weights themselves (1/lifetime, 1/n) and the running '
-           'variance / covariance are not covered: tested against the exact model with a tolerance']
+           'rmean_float_stationary: a bound independent of the weight is false). The RUNNING VARIANCE likewise (C17FloatVar.rvar_float_error_model: for |x| <= M and 8*l*u <= 1 every '
+           'float run stays within 8*l*u*M of the exact mean and 244*l*u*M^2 of the exact running variance — independent of the number of observations; '
+           '_tight, _warmup, _bounded_model, _value_error for the n/(n-1) read-out). The rounding of the weights themselves (1/lifetime, 1/n) and the running '
+           'covariance are not covered: tested against the exact model with a tolerance']
 ASSUMPTIONS = ['numpy element-wise arithmetic']
 
 
@@ -71,7 +73,35 @@ def oracle(ctx, kind, L, vals, reads, case, scale):
                     return
 
 
+def default_instances_case(ctx):
+    """accumulators made without arguments are independent objects: configuring one does not reconfigure the others"""
+    A = acclib.accmod()
+    for cls_name in ('RunningMean', 'RunningVariance'):
+        cls = getattr(A, cls_name)
+        a, b, c = cls(), cls(), cls()
+        b.lifetime = 3
+        c.lifetime = 250
+        case = dict(default_constructed=cls_name, others_set_to=[3, 250])
+        ctx.case(('default-instances', cls_name), True, sample=case)
+        ctx.count('default_instances')
+        ref = cls(lifetime=10)
+        xs = [float((7 * i) % 11) for i in range(25)]
+        bad = None
+        for i, x in enumerate(xs):
+            a.accumulate(x)
+            ref.accumulate(x)
+            va = a.value if cls_name == 'RunningMean' else a.rms
+            vr = ref.value if cls_name == 'RunningMean' else ref.rms
+            if abs(a.lifetime - 10) > 1e-9 or abs(float(va) - float(vr)) > 1e-12 * max(1.0, abs(float(vr))):
+                bad = 'after %d observations a default-constructed %s reports %r (lifetime %r); one made with lifetime=10 reports %r' % (
+                    i + 1, cls_name, float(va), a.lifetime, float(vr))
+                break
+        if bad:
+            ctx.fail('running-instances-share-configuration', bad, case)
+
+
 def check(ctx):
+    default_instances_case(ctx)
     from harness import formulas
     formulas.check_formulas(ctx, ['RunningMean._accumulate_obj'])
     rng = ctx.rng
